@@ -7,7 +7,7 @@
                WHITESPACE).
     Executable definitions only. *)
 From Coq Require Import String Ascii.
-From FA Require Import model.Base model.Json model.Parse model.SchemaSpec.
+From FA Require Import model.Base model.Json model.Parse model.SchemaSpec model.Inline.
 Open Scope string_scope.
 
 (** what an f-string prints for a value *)
@@ -147,8 +147,6 @@ Definition show_pres {A} (ok : A -> string) (r : pres A) : string :=
 Definition show_parse (j : json) : string :=
   hexs (show_pres (fun r => canon (fst r) ++ "|" ++ join "," (keys (snd r))) (parse_auto j)).
 
-Definition show_canon (j : json) : string :=
-  hexs (show_pres (fun r => canon (fst r)) (parse_auto j)).
 
 Definition show_pcf (j : json) : string := hexs (pcf j).
 
@@ -188,9 +186,12 @@ Definition unmarked : json -> bool :=
 Definition simple_raw (j : json) : bool := simple_m j PSchema && unmarked j.
 Definition show_simple (j : json) : string := show_bool (simple_raw j).
 
-(** to_parsing_canonical_form(schema) = print the parsed schema *)
+(** to_parsing_canonical_form(schema): parse (fresh dictionary), inline the types that are only
+    referred to by name (the identity for ordinarily parsed schemas, InlineProofs), print *)
 Definition to_canonical (j : json) : pres string :=
-  let+ r := parse_auto j in POk (canon (fst r)).
+  let+ r := parse_auto j in
+  let+ q := inline (snd r) (fst r) in
+  POk (canon q).
 
 (** The class in which re-reading the canonical form is the identity: every
     named type met inside a non-null namespace has a dotted full name (the
@@ -216,6 +217,7 @@ Definition ns_closed_m : json -> pmode -> string -> bool :=
        end).
 Definition ns_closed (j : json) : bool := ns_closed_m j PSchema "".
 Definition show_closed (j : json) : string := show_bool (ns_closed j).
+Definition show_canon (j : json) : string := hexs (show_pres (fun s => s) (to_canonical j)).
 
 (** the whole parsed schema as text (markers removed, floats as {"$f": bits}), for comparing the
     model's parse output with the implementation's key by key *)
